@@ -50,7 +50,7 @@ type advCase struct {
 	Pref      string `json:"pref,omitempty"`      // valid | garbage | absent
 	CN        string `json:"common_name,omitempty"`
 	BaseTLS   bool   `json:"base_tls"`
-	FetchMode bool   `json:"fetch_prefix,omitempty"` // use the fetch prefix instead (must never yield a connection)
+	FetchMode bool   `json:"fetch_prefix,omitempty"`   // use the fetch prefix instead (must never yield a connection)
 	Mixed     string `json:"mixed_prefixes,omitempty"` // fetch-first | auth-first: a fetch request and the authentication request in one ALPN list
 
 	// mutate
